@@ -14,6 +14,10 @@ TRUSTED_BASE = [
     "run (the harness ships the (block, encoding) pairs the real code observed and the model driver answers oracle calls from that table)",
     "losslessness of DEFLATE / LZ4 / Zstandard / snappy themselves is the libraries': gzip, lz4, zstd are checked only by the differential test "
     "(kafka-go wrapper vs compress/gzip, pierrec/lz4/v4, klauspost/compress/zstd used directly, both directions), not proved",
+    "coq/Spec/SnappyBlock.v: a strict decoder of the snappy block format transcribed by hand from the format description (offset-0 copies = S2 "
+    "'repeat', offsets beyond the output, cut elements, wrong final length are errors); every (block, encoding) pair the real writer produced at "
+    "any compression level is checked against it in the model driver (when cheap: chunk <= 8 KiB or incompressible) and the Go-side strict decoder "
+    "(harness strictSnappyDecode, used for all sizes and all four levels, framed and unframed) is compared with it on the 'sb' cases",
     "coq/Spec/Xerial.v: the xerial stream format transcribed by hand from the format description (fidelity to org.xerial.snappy is trusted; "
     "cross-checked at run time against a hand-written Go de-framer and the vendored go-xerial-snappy)",
     "xerialWriter.output / xerialReader.input capacities and the encode==nil / decode==nil branches are not modelled (scratch space; unreachable via snappy.go)",
@@ -21,6 +25,10 @@ TRUSTED_BASE = [
     "ocaml/kvio.ml.in + ocaml/c16_driver.ml (hex interchange, oracle table, ~220 lines) and harness/kvfmt",
 ]
 ASSUMPTIONS = [
+    "sources handed to ReadFrom / io.Copy: a finite byte string chopped arbitrarily, with (0, nil) reads and with the last bytes returned together "
+    "with the final error or not; the final error is io.EOF (theorems) or another error (model + differential only)",
+    "known findings F32-F34 (lz4 ReadFrom after Write, lz4 / gzip WriteTo after Read: library methods promoted by the wrappers) are replayed by the "
+    "'quirk' cases and those three mixes are otherwise avoided for lz4 / gzip in the public-API round trips",
     "the underlying io.Reader delivers a finite byte string then io.EOF (short reads allowed); the underlying io.Writer either accepts everything or fails "
     "with a short write after a byte budget; other transport errors are C17's business",
     "writer input capacity <= 2^31 in framed mode (a block's encoded length must fit the 4-byte frame length); payloads up to 70 KB (xerial layer, model "
@@ -35,6 +43,15 @@ def classify(c):
     if model == "SPECDIFF":
         return dict(layer="obligation", what="model output is not accepted by the reference xerial decoder of Spec/Xerial.v "
                                              "(theorem C16_xerial_roundtrip cannot hold for this case)", input=c)
+    if model == "NOT-SNAPPY":
+        return dict(layer="property", what="snappy codec: a block produced by the writer is not a snappy block for the strict decoder of "
+                                           "Spec/SnappyBlock.v (offset-0 copy = S2 extension, or corrupt): not readable by a reference snappy decoder",
+                    input=c)
+    if op == "sb":
+        return dict(layer="correspondence", what="the harness's strict snappy block decoder and coq/Spec/SnappyBlock.v disagree on a chunk", input=None)
+    if op == "quirk":
+        return dict(layer="property", key="C16-" + c["args"].strip(),
+                    what=f"codec wrapper exposes a library method that fails in a mix of calls: {c['args']}: {go[:200]}", input=c)
     if op in ("rt", "hist", "conc"):
         what = {"rt": "codec round trip / interoperability with the reference library failed",
                 "hist": "a pooled codec object that saw a failed or abandoned stream mishandled the next good stream",
@@ -77,7 +94,7 @@ def correspondence(ctx):
             texts.append(open(os.path.join(cdir, f)).read())
     rc, out, err, dt = L.sh([gobin, "-seed", str(ctx.seed), "-nx", str(nx), "-nrt", str(ctx.scale(300, 5000)),
                              "-nhist", str(ctx.scale(60, 1000)), "-nconc", str(ctx.scale(10, 100)),
-                             "-npool", str(ctx.scale(30, 500))], timeout=3000)
+                             "-npool", str(ctx.scale(30, 500)), "-nsb", str(ctx.scale(200, 3000))], timeout=3000)
     if rc != 0:
         raise L.Fail("correspondence", "harness cmd/c16 crashed (panic in a codec? pooled object not handed back?)", (out[-1500:] + err[-2500:]))
     texts.append(out)
@@ -112,11 +129,15 @@ def correspondence(ctx):
                      "payloads tiny / <=2000 / around 1 KiB, 10626 (varint 82 53), 32 KiB and 64 KiB boundaries, random/zeros/repetitive/text; pooled "
                      "objects fresh or with chosen input capacity (0, 1..2048, 4 KiB..128 KiB) and residual input/nbytes/framed/header/output/offset; "
                      "1-3 consecutive streams per object incl. streams whose sink fails or whose source is cut / corrupted / junk / empty / closed before EOF; "
-                     "Write splits (one, equal, random, empty writes), ReadFrom with short reads, explicit Flush; Read buffer cycles from 1 B to 70 KB, "
-                     "WriteTo, short reads of the underlying reader; sources from kafka-go, a hand-written reference encoder with arbitrary (also empty) "
+                     "all four compression levels; mixes of Write (one, equal, random, empty writes) and ReadFrom / io.Copy from scripted sources (chopped "
+                     "reads, (0,nil) reads, (n>0, io.EOF), failing sources), explicit Flush; Read buffer cycles from 1 B to 70 KB, WriteTo / io.Copy alone "
+                     "or after 1-3 Reads, short reads of the underlying reader; sources from kafka-go, a hand-written reference encoder with arbitrary (also empty) "
                      "blocks, go-xerial-snappy, raw blocks from three snappy encoders.  rt/hist/conc (Go-side predicates on gzip, snappy framed+unframed, "
-                     "lz4, zstd via the public API against the format libraries in both directions, payloads up to 300 KB; histories with truncated/"
-                     "corrupt/abandoned streams and failing sinks before a good stream; 2-15 goroutines on one codec value).  pool: random "
+                     "lz4, zstd and every snappy compression level framed+unframed via the public API — writers driven by mixes of Write and io.Copy, readers by "
+                     "Reads / io.Copy / Reads then io.Copy — against the format libraries and the strict snappy decoder in both directions, payloads "
+                     "(random, zeros, repetitive, text, JSON-like) up to 300 KB; histories with truncated/"
+                     "corrupt/abandoned streams and failing sinks before a good stream; 2-15 goroutines on one codec value).  sb: the strict snappy decoder of the harness vs coq/Spec/SnappyBlock.v on blocks of seven "
+                     "snappy/S2 encoders, also corrupted and cut.  quirk: the three known library mixes.  pool: random "
                      "New/Use/Close sequences per codec side with object identity observed.  Every case has a non-empty feature vector; "
                      "distinct by hash of op+args",
                 samples=samples, failures=failures)
